@@ -24,8 +24,10 @@ CONSTANTS G,         \* goroutine ids (1..n)
           Variant,   \* "ok" | "earlyput" | "notrunc"
           Coarse,    \* TRUE: reads are grouped, Return merged into Put (schedule granularity)
           ReadGroups,\* with Coarse: 3 = first read / up to the middle / rest; 1 = all reads in one step
-          DetPool    \* TRUE: Get takes the lowest pooled buffer if any (schedule emission: the harness
+          DetPool,   \* TRUE: Get takes the lowest pooled buffer if any (schedule emission: the harness
                      \* cannot choose the buffer, so enumerating the choice would only duplicate schedules)
+          Hist       \* TRUE: the schedule so far is part of the state (every interleaving is a distinct
+                     \* terminal state, printed for the gate replay); FALSE: hist stays empty
 
 VARIABLES call,   \* g -> [inb, pc, buf, n, k, st, res]
           slots,  \* buffer id -> sequence of 14 slot contents
@@ -52,7 +54,7 @@ PoolInit(inputs, stale) ==
   /\ pool = {NBuf}                 \* one buffer already pooled, holding stale contents
   /\ hist = <<>>
 
-Step(g) == hist' = Append(hist, g)
+Step(g) == hist' = IF Hist THEN Append(hist, g) ELSE hist
 
 (* a fresh buffer is one never used: not pooled, not owned *)
 FreshBuf(b) == b \notin pool /\ owner[b] = 0 /\ slots[b] = EmptySlots /\ b # NBuf
